@@ -394,11 +394,18 @@ where
     failures.sort_by_key(|f| f.0);
     ev.absorb_part(part, &merged);
     if let Some((shard, case, msg)) = failures.into_iter().next() {
+        // outside proptest a panicking oracle must not take the harness down
+        let guarded = |c: &C, rec: &Rec| -> Result<(), String> {
+            match std::panic::catch_unwind(std::panic::AssertUnwindSafe(|| oracle(c, rec, ctx))) {
+                Ok(r) => r,
+                Err(_) => Err("the check's oracle panicked on this case (a panic inside the code under test)".to_string()),
+            }
+        };
         let case = {
             let still_fails = |c: &C| {
                 let rec = Rec::new();
                 rec.freeze();
-                oracle(c, &rec, ctx).is_err()
+                guarded(c, &rec).is_err()
             };
             let smaller = minimise(&case, &still_fails);
             if still_fails(&smaller) {
@@ -409,7 +416,7 @@ where
         };
         // re-evaluate the shrunk case once to get the message that belongs to it
         let rec = Rec::new();
-        let msg2 = match oracle(&case, &rec, ctx) {
+        let msg2 = match guarded(&case, &rec) {
             Err(m) => m,
             Ok(()) => format!("(shrunk case no longer fails on re-evaluation; original message) {}", msg),
         };
